@@ -208,3 +208,10 @@ def no_stale_results(db, ctx):
     from . import C10
     C10.reset_clears_results(db, ctx)
     ctx.floor(1)
+
+
+@rule("C01.shared-input", "sub-morphemes produced by split_into read their surface / offsets from the input of the list they were split FROM: the output list adopts "
+                          "that input (re-evaluation of C09.shared-input)")
+def shared_input_reeval(db, ctx):
+    from . import C09
+    C09.shared_input(db, ctx)
